@@ -48,6 +48,36 @@ def rule_diff_write(ctx, rep):
         dcall, before, after = diffs[0]
         a_root = pv.root(after)
         b_root = pv.root(before)
+        # the before-operand is what was read: every local list on its way from the read to the diff keeps its elements
+        # (terminating the last line, `x[-1] += "\n"`, is judged by R-NEWLINE-LOSSLESS; dropping / inserting / reordering lines
+        # makes "before + diff" differ from the file that was on disk)
+        chain = []
+        cur_e = before
+        for _ in range(6):
+            if isinstance(cur_e, ast.Name):
+                chain.append(cur_e.id)
+                nxt = ctx.resolver(fn).single_assignments().get(cur_e.id)
+                if nxt is None:
+                    break
+                cur_e = nxt
+                while isinstance(cur_e, ast.Call) and isinstance(cur_e.func, ast.Attribute) and cur_e.func.attr in ("copy",) and not cur_e.args:
+                    cur_e = cur_e.func.value
+                if isinstance(cur_e, ast.NamedExpr):
+                    cur_e = cur_e.value
+            else:
+                break
+        shrunk = []
+        for n in walk_no_nested(fn.node):
+            if isinstance(n, ast.Call) and isinstance(n.func, ast.Attribute) and isinstance(n.func.value, ast.Name) and n.func.value.id in chain \
+                    and n.func.attr in ("pop", "remove", "clear", "insert", "sort", "reverse", "append", "extend") and n.lineno < dcall.lineno:
+                shrunk.append(n)
+            elif isinstance(n, ast.Delete) and any(isinstance(t, ast.Subscript) and isinstance(t.value, ast.Name) and t.value.id in chain for t in n.targets) and n.lineno < dcall.lineno:
+                shrunk.append(n)
+            elif isinstance(n, ast.Assign) and n.lineno < dcall.lineno and any(isinstance(t, ast.Subscript) and isinstance(t.slice, ast.Slice) and isinstance(t.value, ast.Name) and t.value.id in chain for t in n.targets):
+                shrunk.append(n)
+        rep.check("R-DIFF-WRITE-AGREE", fn.qname, fn.loc(shrunk[0]) if shrunk else fn.loc(dcall), not shrunk, "before-intact",
+                  "the list used as the diff's before-operand is restructured before the diff (" + ", ".join(f"`{unparse(x)[:40]}`" for x in shrunk[:3])
+                  + "): the reported hunks no longer start from the file that was on disk")
         for w in writes:
             detail = f"{w['kind']}"
             if w["payload"] is None:
@@ -388,6 +418,9 @@ def check(ctx, rep):
     rule_no_content_cache(ctx, rep)
     rule_codec_agree(ctx, rep)
     rule_line_unit(ctx, rep)
+    from .c17 import rule_exec_order
+
+    rule_exec_order(ctx, rep)
     rep.not_covered += [
         "byte-level applicability of difflib output (BOM, encodings, final newline arithmetic)",
         "lossless round-trip of libcst parse/emit (trusted)",
